@@ -132,6 +132,11 @@ def collections(np, ss, equal):
         out["matrix_T_view"] = (np.ascontiguousarray(m.T).T, ("py", "c"))
         big = np.full((len(ss), 2 * len(ss[0])), 5e8); big[:, ::2] = m
         out["matrix_strided"] = (big[:, ::2], ("py", "c"))
+        if hasattr(np, "matrix"):
+            import warnings as _w
+            with _w.catch_warnings():
+                _w.simplefilter("ignore")
+                out["numpy_matrix"] = (np.matrix(m), ("py", "c"))      # listed as supported by SeriesContainer
     return out
 
 
@@ -367,12 +372,14 @@ def run(ctx):
                 if not dmask.any():
                     dmask[rng.randrange(n)] = True
                 nprob = rng.choice([0, 0, 2]) if use_c else 0
+                # the initial average need not have the length of the series
+                c_init = ss[0] if rng.random() < 0.5 else gen.series(rng, rng.randint(2, len(ss[0]) + 3))
                 for cname in ("list_of_np", "matrix_C", "matrix_F", "matrix_strided"):
                     data = cols[cname][0]
                     try:
                         if nprob:
                             _cc.srand(12345)
-                        avg = dtw_barycenter.dba_loop(data, c=np.array(ss[0], dtype=float), max_it=2, thr=None, use_c=use_c,
+                        avg = dtw_barycenter.dba_loop(data, c=np.array(c_init, dtype=float), max_it=2, thr=None, use_c=use_c,
                                                       mask=dmask.copy(), nb_prob_samples=nprob)
                     except Exception as e:
                         ctx.violation("exception", fn="dba_loop", use_c=use_c, container=cname, error=repr(e)[:300], series=ss)
@@ -440,6 +447,27 @@ def run(ctx):
                             ctx.violation("container-dependent-result", fn="%s[use_c=%s]" % (fname, use_c), container=cname,
                                           reference_container=base[0], got=v, want=base[1], series=ss, k=kk, seed=cseed,
                                           kmeanspp=kpp, window=cwin)
+        # histories: the same array objects, modified in place between two calls (a sliding buffer), must be read again
+        if it % 5 == 0:
+            for fname_, f_ in (("dtw.distance", dtw.distance), ("dtw.distance_fast", dtw.distance_fast), ("ed.distance", ed.distance)):
+                buf_a, buf_b = np.array(s1, dtype=float), np.array(s2, dtype=float)
+                try:
+                    got_, snaps_ = [], []
+                    for step_ in range(3):
+                        got_.append(float(f_(buf_a, buf_b)))          # consecutive calls on the very same objects
+                        snaps_.append((buf_a.tolist(), buf_b.tolist()))
+                        buf_a[:-1] = buf_a[1:].copy()
+                        buf_a[-1] = rng.choice([0.0, 1.5, -2.0])
+                        buf_b *= 1.5
+                    for step_, (g_, (la_, lb_)) in enumerate(zip(got_, snaps_)):
+                        want_ = float(f_(np.array(la_), np.array(lb_)))
+                        ctx.count("history_checks")
+                        if not same([g_], [want_], ctx):
+                            ctx.violation("history-dependence", what="%s on array objects that were modified in place since the "
+                                          "previous call" % fname_, step=step_, got=g_, fresh_arrays=want_, s1=la_, s2=lb_)
+                            break
+                except Exception as e:
+                    ctx.violation("exception", fn="in-place history " + fname_, error=repr(e)[:300], s1=s1, s2=s2)
         # histories: shared settings dictionaries and model objects
         if it % 2 == 0:
             arrs = [np.array(s, dtype=float) for s in ss]
